@@ -73,6 +73,14 @@ theorem every_exit_restores_at_every_point (m : Nat) (hm : m < 512) (kittyFlags 
   · rw [(C04.signal_path_is_close e (clearWire s.w)).1]; exact h'
   · rw [(C04.panic_path_is_close e (clearWire s.w)).1]; exact h'
 
+/-- **Which termination signals are exit paths**: `setupSignals` routes exactly these eight to `chSigKill`
+(the kill arm of the input goroutine), unconditionally — no enclosing condition, no earlier return (seeded
+C04-m6 put an early return under in-band resize in front of it).  SIGHUP is not among them. -/
+theorem facts_kill_signals :
+    Gen.Modes.killSignals = ["syscall.SIGABRT", "syscall.SIGBUS", "syscall.SIGFPE", "syscall.SIGILL", "syscall.SIGINT",
+      "syscall.SIGQUIT", "syscall.SIGSEGV", "syscall.SIGTERM"] ∧
+    Gen.Modes.killNotifyGuard = "" := by decide
+
 /-- The spinner widget's goroutine — the other goroutine the library starts that can panic in code of
 the library — has the same deferred handler: `recover` → `m.vx.Close()` → `panic(err)` (regenerated
 skeleton of the goroutine in `Model.start`), so its panic path is `Close` as well. -/
